@@ -22,6 +22,10 @@ func main() {
 	for i, c := range curvesRunC04L {
 		names = append(names, "L/"+c.name)
 		kind["L/"+c.name] = i
+		// inputs large enough for the public API to select its largest windows (G2 in the thorough tier)
+		if strings.HasSuffix(c.name, "/G1") || r.Thorough() {
+			names = append(names, "Lbig/"+c.name)
+		}
 	}
 	var snames []string
 	for i, c := range curvesSchedSpecs {
